@@ -775,6 +775,25 @@ def m_where(I, e, args, kws):
             u = None
     out = _elementwise(I, e, [c, a, b], unit=u, frame=a.frame if a.frame == b.frame else None)
     out.tags["row_select"] = True          # entries chosen by a mask: some rows are explicitly given another value
+    # a selection ON THE CORNER INDICATOR t ∈ {0, 1}: np.where(t > 0, a, b) ≡ t·a + (1 − t)·b on those two literals — the affine facet of
+    # the corner map is kept, so that "t = 0 ↦ lb, t = 1 ↦ ub" stays decidable when the map is written as a selection
+    from .extern import poly_of, poly_binop
+    cm = c.tag("cmp")
+    if cm is not None and cm[1].tag("poly") == {("corner",): 1} and cm[2].known and isinstance(cm[2].const, (int, float)):
+        import operator as _op
+        f = {"Gt": _op.gt, "GtE": _op.ge, "Lt": _op.lt, "LtE": _op.le, "Eq": _op.eq, "NotEq": _op.ne}.get(cm[0])
+        pa, pb = poly_of(a), poly_of(b)
+        if f is not None and pa is not None and pb is not None and f(0, cm[2].const) != f(1, cm[2].const):
+            t1 = f(1, cm[2].const)
+            hi, lo = (pa, pb) if t1 else (pb, pa)          # value at t = 1, value at t = 0
+            poly = dict(lo)
+            for m_, c_ in hi.items():
+                k_ = tuple(sorted(m_ + ("corner",)))
+                poly[k_] = poly.get(k_, 0) + c_
+            for m_, c_ in lo.items():
+                k_ = tuple(sorted(m_ + ("corner",)))
+                poly[k_] = poly.get(k_, 0) - c_
+            out.tags["poly"] = {m_: c_ for m_, c_ in poly.items() if c_ != 0}
     # np.where(x > 0, x, nan) : positive-or-NaN mask idiom
     cmp_ = c.tag("cmp")
     if cmp_ is not None and cmp_[0] in ("Gt",) and cmp_[2].known and cmp_[2].const == 0 and cmp_[1].term == a.term \
